@@ -12,7 +12,8 @@ Print Assumptions C10_no_panic_open_table.
 Theorem C10_no_panic_table :
   forall crc file t,
     (forall h, has t h <> Panic) /\ (forall h, get crc file t h <> Panic)
-    /\ (forall hs, get_many t hs <> GMCrash) /\ iterate crc file t <> Panic.
+    /\ (forall hs, get_many t hs <> GMCrash) /\ iterate crc file t <> Panic
+    /\ (forall short, valid_short short = true -> resolve t short <> Panic).
 Proof. exact no_panic_table. Qed.
 Print Assumptions C10_no_panic_table.
 
@@ -27,7 +28,7 @@ Proof. exact no_panic_manifest. Qed.
 Print Assumptions C10_no_panic_manifest.
 
 Theorem C10_oracle_accepts_model :
-  forall i, oracle i (model_obs i) = true.
+  forall i, input_wf i = true -> oracle i (model_obs i) = true.
 Proof. exact oracle_model. Qed.
 Print Assumptions C10_oracle_accepts_model.
 
@@ -53,8 +54,3 @@ Theorem C10_iterate_mislabel_refuted :
     /\ map snd l = map snd l' /\ map fst l <> map fst l'.
 Proof. exact iterate_mislabel_refuted. Qed.
 Print Assumptions C10_iterate_mislabel_refuted.
-
-Theorem C10_hash_at_refuted :
-  exists file cnt t idx, open_table file cnt = Ok t /\ idx < ti_count t /\ hash_at t idx = Panic.
-Proof. exact hash_at_refuted. Qed.
-Print Assumptions C10_hash_at_refuted.
